@@ -3,7 +3,10 @@
    The top-level assembly (which displacement the sanitizer chooses, padding => zero shift, displacements outside
    i32 refused) is stated over whole inputs elsewhere; it uses exactly these theorems. *)
 From Coq Require Import List NArith ZArith Bool.
-From MS Require Import Base.Bytes Base.Outcome Mp4.Header Mp4.Box Mp4.San Mp4.Spec Mp4.ShiftSpec Mp4.BoxProofs.
+From Coq.Strings Require Import Byte.
+From MS Require Import Base.Bytes Base.Outcome Base.Prog Mp4.Header Mp4.Box Mp4.San Mp4.Spec Mp4.ShiftSpec Mp4.BoxProofs
+  Mp4.LoopProofsRewrite.
+Import ListNotations.
 Open Scope N_scope.
 
 (* when the rewrite by d succeeds, the specification-side tables of the new payload are the old ones with every
@@ -46,3 +49,49 @@ Theorem C01_tables_found : forall p : bytes, blen p < 4294967296 ->
   is_ok (moov_check p) = match co_regions p with Some _ => true | None => false end.
 Proof. exact moov_check_iff_spec. Qed.
 Print Assumptions C01_tables_found.
+
+(* ================================================================== TOP LEVEL (whole inputs; proofs in Mp4/LoopProofsRewrite.v)
+   For every configuration, both Skip behaviours of the reader, every input up to 2^64-1 bytes and every fuel:
+   if metadata is returned then, read as boxes by the specification (metadata_shape), its moov payload mp' has the
+   chunk-offset tables of the input's last moov payload at the same places, every entry e replaced by e + delta exactly,
+   delta = |metadata| - media offset, every new entry within its field -- so that in metadata || media each entry
+   addresses the media byte it addressed in the input.  When a padding box is emitted (psz <> 0), delta = 0 follows.
+   Refusal: a plan that is Refuse, or a Shift under which some entry leaves its field, is never answered with Ok. *)
+Theorem C01_toplevel :
+  forall (cfg : config) (lenient : bool) (inp : input) (fuel : nat) (o : out) (md : bytes) (pad : N),
+  ilen inp <= U64MAX -> (forall t, cumulative_mdat_box_size cfg = Some t -> t <= U32MAX) ->
+  mp4_sanitize cfg lenient U64MAX' inp fuel = Ok o -> o_metadata o = Some (md, pad) ->
+  exists bs m fp mp' psz ts,
+    tiling (cumulative_mdat_box_size cfg) inp = Some bs /\ last_moov bs = Some m /\
+    metadata_shape (md_input md pad) = Some (fp, mp', psz) /\
+    co_tables (tb_payload inp m) = Some ts /\
+    let delta := (Z.of_N (blen md + pad) - Z.of_N (s_off (o_data o)))%Z in
+    co_regions mp' = co_regions (tb_payload inp m) /\
+    co_tables mp' = Some (map (fun t : N * list N => (fst t, map (fun e => Z.to_N (Z.of_N e + delta)) (snd t))) ts) /\
+    (forall t e, In t ts -> In e (snd t) -> (0 <= Z.of_N e + delta < 2 ^ (8 * Z.of_N (fst t)))%Z) /\
+    (psz <> 0 -> delta = 0%Z).
+Proof. exact C01_toplevel_lemma. Qed.
+Print Assumptions C01_toplevel.
+
+Theorem C01_pad_means_zero_shift :
+  forall (cfg : config) (lenient : bool) (inp : input) (fuel : nat) (o : out) (md : bytes) (pad : N)
+         (fp mp : bytes) (psz : N),
+  ilen inp <= U64MAX -> (forall t, cumulative_mdat_box_size cfg = Some t -> t <= U32MAX) ->
+  mp4_sanitize cfg lenient U64MAX' inp fuel = Ok o -> o_metadata o = Some (md, pad) ->
+  metadata_shape (md_input md pad) = Some (fp, mp, psz) -> psz <> 0 ->
+  blen md + pad = s_off (o_data o).
+Proof. exact C01_pad_means_zero_shift_lemma. Qed.
+Print Assumptions C01_pad_means_zero_shift.
+
+Theorem C01_overflow_rejected_toplevel :
+  forall (cfg : config) (lenient : bool) (inp : input) (fuel : nat) (bs : list tbox),
+  max_metadata_size cfg < 4294967296 -> ilen inp <= U64MAX ->
+  (forall t, cumulative_mdat_box_size cfg = Some t -> t <= U32MAX) ->
+  tiling (cumulative_mdat_box_size cfg) inp = Some bs ->
+  (plan_of inp bs = Some Refuse \/
+   exists d m ts t e, plan_of inp bs = Some (Shift d) /\ last_moov bs = Some m /\
+     co_tables (tb_payload inp m) = Some ts /\ In t ts /\ In e (snd t) /\ shift (fst t) d e = None) ->
+  is_ok (mp4_sanitize cfg lenient U64MAX' inp fuel) = false.
+Proof. exact C01_overflow_rejected_toplevel_lemma. Qed.
+Print Assumptions C01_overflow_rejected_toplevel.
+
